@@ -292,11 +292,17 @@ def legacy_sig_message(
     txouts: typing.List[bytes],
     version: int = 1,
     locktime: int = 0,
+    sighash_flag: int = bits.script.constants.SIGHASH_ALL,
 ) -> bytes:
     """
     Generate message to sign for a non-witness input, i.e. the transaction in which
     the input being signed has scriptcode as its scriptSig and the scriptSig of every
-    other input is empty. The 4 byte sighash flag is appended by bits.sig
+    other input is empty, modified per sighash_flag:
+        SIGHASH_NONE: no outputs, sequence of the other inputs is 0
+        SIGHASH_SINGLE: only the output at txin_index, preceded by txin_index outputs
+            of value -1 and empty script, sequence of the other inputs is 0
+        SIGHASH_ANYONECANPAY: only the input being signed
+    The 4 byte sighash flag is appended by bits.sig
     https://en.bitcoin.it/wiki/OP_CHECKSIG
     Args:
         txins: list[bytes], inputs
@@ -305,13 +311,37 @@ def legacy_sig_message(
         txouts: list[bytes], outputs
         version: int, version
         locktime: int, locktime
+        sighash_flag: int, sighash_flag
     """
     if txin_index not in range(len(txins)):
         raise IndexError("txin_index out of range")
+    sighash_base = sighash_flag & 0x1F
+    none_or_single = sighash_base in [
+        bits.script.constants.SIGHASH_NONE,
+        bits.script.constants.SIGHASH_SINGLE,
+    ]
+    if sighash_base == bits.script.constants.SIGHASH_SINGLE and txin_index >= len(
+        txouts
+    ):
+        # consensus digest is the constant 1 here, a signature of it is valid for
+        # any transaction, and it is not a hash of any message
+        raise ValueError("SIGHASH_SINGLE input without corresponding output")
     txins_ = [
-        txin(txin_[:36], scriptcode if i == txin_index else b"", sequence=txin_[-4:])
+        txin(txin_[:36], scriptcode, sequence=txin_[-4:])
+        if i == txin_index
+        else txin(
+            txin_[:36],
+            b"",
+            sequence=b"\x00\x00\x00\x00" if none_or_single else txin_[-4:],
+        )
         for i, txin_ in enumerate(txins)
     ]
+    if sighash_flag & bits.script.constants.SIGHASH_ANYONECANPAY:
+        txins_ = [txins_[txin_index]]
+    if sighash_base == bits.script.constants.SIGHASH_NONE:
+        txouts = []
+    elif sighash_base == bits.script.constants.SIGHASH_SINGLE:
+        txouts = [txout(0xFFFFFFFFFFFFFFFF, b"")] * txin_index + [txouts[txin_index]]
     return tx(txins_, txouts, version=version, locktime=locktime)
 
 
@@ -513,6 +543,7 @@ def send_tx(
                     txouts,
                     version=version,
                     locktime=locktime,
+                    sighash_flag=sighash_flag,
                 )
                 for txin_index, txin_ in enumerate(txins)
             ]
